@@ -8,7 +8,9 @@ Space (every member is visited, nothing sampled): a history is
     another branch), kept only when every commit is reachable from some head;
   * any subset of commits carrying a build tag, any subset whose message contains the search text;
   * commit times: increasing with the history by default; in the groups marked so also every order of the commit
-    times relative to the history (ancestors later than descendants, all equal) - always inside the 30-day window.
+    times relative to the history (ancestors later than descendants, all equal) and time scales of minutes, 2, 5,
+    7 and 29 days between commits - always inside the 30-day window;
+  * branch-name families with every separator the numeric-aware order handles (. - _ /).
 The real ``ReposCollection.make_report`` runs on a deterministic duck-typed repository
 (models/ghist_model.py); ``RGraph.branches[*].rbuilds[*]`` and the printed report are compared with a
 reachability reference written from the property statement.
@@ -37,10 +39,19 @@ ASSUMPTIONS = [
     "commit times inside the 30-day window (property quantifier), in any order relative to the history where the "
     "group says so; the obsolete-branch cut-off is not exercised",
     "at most two parents per commit, one standard build tag per commit, build numbers from tags only",
-    "one remote ('origin'); branch names release/<a>.<b> and master",
+    "one remote ('origin'); branch names release/<a><sep><b> with sep in . - _ / and master",
     "headings that list no commit are not compared (implementation-only per DESIGN §1.3)",
 ]
-REQUIRED_FEATURES = ["printed-report-parsed", "commit-times-against-history", "commit-times-equal",
+REQUIRED_FEATURES = ["printed-report-parsed", "commit-times-spread-over-days",
+                     "higher-branch-head-older-than-lower-report-builds:>1d",
+                     "higher-branch-head-older-than-lower-report-builds:>=5d",
+                     "higher-branch-head-older-than-lower-report-builds:>=29d",
+                     "higher-branch-head-newer-than-lower-report-builds:>1d",
+                     "higher-branch-head-newer-than-lower-report-builds:>=29d",
+                     "days-older-higher-branch-owes-not-merged",
+                     "name-separator-underscore", "name-separator-dash", "name-separator-dot", "name-separator-slash",
+                     "order-differs-from-concatenated-digits",
+                     "commit-times-against-history", "commit-times-equal",
                      "ancestor-of-inside-head-committed-later", "merge", "several-roots", "heads-coincide", "head-inside-other-branch",
                      "head-inside-other-branch+matching-reachable", "not-merged-expected", "tagged-head",
                      "not-built-head", "parallel-tagged-sub-branches", "tag-on-merge-of-built-sub-branches",
@@ -50,39 +61,74 @@ B1 = ("master",)
 B2 = ("release/2.0", "release/10.0")          # plain string order would put 10.0 first
 B3 = ("release/2.0", "release/10.0", "master")
 B4 = ("release/1.0", "release/2.0", "release/10.0", "master")
+# name families for the separators the numeric-aware order handles: '.', '-', '_', '/' (component-wise numeric:
+# 9_10 below 10_1 although "910" > "101"; 1.9 below 1.10; ...)
+N_US = ("release/9_10", "release/10_1")
+N_DOT = ("release/1.9", "release/1.10")
+N_DASH = ("release/2-9", "release/2-10")
+N_SLASH = ("release/3/9", "release/3/10")
+N_MIX = ("release/9_10", "release/10.1", "release/10-2", "master")
+DAY = 86400
 
 # group = (n, branch names, number of shards, (max matching, max tagged) or None, printed-report mode, commit times)
 #   printed-report mode: "all" = every history is printed and parsed back; "distinct" = once per distinct
 #   report structure per shard (the formatter receives nothing but the report data)
-#   commit times: "inc" = increasing with the commit id (topological); "dec" = that and the reverse (every ancestor
-#   later than its descendants); "dec+eq" = those and all-equal; "all" = every permutation of the commit times over the commits and all-equal
+#   commit times (see _date_schemes): "inc" = 10 s steps in id (topological) order; "inc@7d" = 7-day steps;
+#   "dec@2d"/"dec@5d" = "inc" and the reverse order (every ancestor later than its descendants) in 2/5-day steps;
+#   "all" = every permutation of the commit times (10-minute steps), all-equal, increasing and reversed in 2- and
+#   5-day steps, and every split of the commits into two dates 29 days apart; "lite" = the permutations, all-equal,
+#   increasing in 5-day and reversed in 2-day steps; "days4" = inc, reversed@5d, all-equal, inc@7d
 _GROUPS = {
     "quick": [(1, B2, 1, None, "all", "all"), (2, B2, 1, None, "all", "all"), (1, B3, 1, None, "all", "all"),
-              (2, B3, 1, None, "all", "all"), (3, B1, 1, None, "all", "all"), (3, B2, 2, None, "all", "all"),
-              (3, B3, 12, None, "all", "all"), (3, B4, 12, None, "all", "dec"),
-              (4, B1, 2, None, "all", "dec"), (4, B2, 32, None, "all", "dec"), (4, B3, 96, None, "distinct", "inc")],
+              (2, B3, 1, None, "all", "all"), (3, B1, 1, None, "all", "all"), (3, B2, 4, None, "all", "all"),
+              (3, B3, 12, None, "all", "lite"), (3, B4, 12, None, "all", "dec@2d"),
+              (4, B1, 2, None, "all", "dec@5d"), (4, B2, 32, None, "all", "dec@5d"),
+              (4, B3, 96, None, "distinct", "inc@7d"),
+              (2, N_US, 1, None, "all", "inc"), (3, N_US, 1, None, "all", "inc"),
+              (2, N_DOT, 1, None, "all", "inc"), (3, N_DOT, 1, None, "all", "inc"),
+              (2, N_DASH, 1, None, "all", "inc"), (3, N_DASH, 1, None, "all", "inc"),
+              (2, N_SLASH, 1, None, "all", "inc"), (3, N_SLASH, 1, None, "all", "inc"),
+              (2, N_MIX, 1, None, "all", "inc")],
     "thorough": [(1, B2, 1, None, "all", "all"), (2, B2, 1, None, "all", "all"), (1, B4, 1, None, "all", "all"),
-                 (2, B4, 1, None, "all", "all"), (3, B1, 1, None, "all", "all"), (3, B2, 2, None, "all", "all"),
-                 (3, B3, 8, None, "all", "all"), (3, B4, 24, None, "all", "all"),
-                 (4, B1, 4, None, "all", "all"), (4, B2, 16, None, "all", "dec+eq"), (4, B3, 48, None, "all", "dec"),
-                 (4, B4, 96, None, "distinct", "inc"), (5, B1, 16, None, "all", "dec"), (5, B2, 128, None, "distinct", "inc"),
-                 (5, B3, 160, (1, 2), "distinct", "inc")],
+                 (2, B4, 1, None, "all", "all"), (3, B1, 1, None, "all", "all"), (3, B2, 4, None, "all", "all"),
+                 (3, B3, 16, None, "all", "all"), (3, B4, 32, None, "all", "lite"),
+                 (4, B1, 4, None, "all", "all"), (4, B2, 24, None, "all", "days4"), (4, B3, 48, None, "all", "dec@5d"),
+                 (4, B4, 96, None, "distinct", "inc@7d"), (5, B1, 16, None, "all", "dec@5d"),
+                 (5, B2, 128, None, "distinct", "inc@7d"), (5, B3, 160, (1, 2), "distinct", "inc"),
+                 (3, N_US, 1, None, "all", "inc"), (4, N_US, 8, None, "all", "inc"),
+                 (3, N_DOT, 1, None, "all", "inc"), (4, N_DOT, 8, None, "all", "inc"),
+                 (3, N_DASH, 1, None, "all", "inc"), (4, N_DASH, 8, None, "all", "inc"),
+                 (3, N_SLASH, 1, None, "all", "inc"), (4, N_SLASH, 8, None, "all", "inc"),
+                 (3, N_MIX, 4, None, "all", "inc")],
 }
 
 
 def _date_schemes(n, mode):
-    """None = default (increasing with the id); otherwise the rank of each commit's time."""
+    """-> list of None (default: 10 s steps in id order) or (rank of each commit's time, seconds per rank unit).
+    The spread never exceeds 29 days."""
+    up, down = list(range(1, n + 1)), list(range(n, 0, -1))
     if mode == "inc":
         return [None]
-    if mode == "dec":
-        return [None, list(range(n, 0, -1))]
-    if mode == "dec+eq":
-        return [None, list(range(n, 0, -1)), [1] * n]
+    if mode == "inc@7d":
+        return [(up, 7 * DAY)]
+    if mode == "dec@2d":
+        return [None, (down, 2 * DAY)]
+    if mode == "dec@5d":
+        return [None, (down, 5 * DAY)]
+    if mode == "days4":
+        return [None, (down, 5 * DAY), ([1] * n, 600), (up, 7 * DAY)]
     out = [None]
-    for perm in itertools.permutations(range(1, n + 1)):
-        if list(perm) != list(range(1, n + 1)):
-            out.append(list(perm))
-    out.append([1] * n)
+    for perm in itertools.permutations(up):
+        if list(perm) != up:
+            out.append((list(perm), 600))
+    out.append(([1] * n, 600))
+    if mode == "lite":
+        return out + [(up, 5 * DAY), (down, 2 * DAY)]
+    out += [(up, 2 * DAY), (down, 2 * DAY), (up, 5 * DAY), (down, 5 * DAY)]
+    for mask in range(1, (1 << n) - 1):
+        out.append(([(mask >> i) & 1 for i in range(n)], 29 * DAY))
+    for ranks, step in out[1:]:
+        assert (max(ranks) - min(ranks)) * step <= 29 * DAY
     return out
 
 
@@ -180,10 +226,7 @@ def run_shard(shard, tier, seed, acc):
     tag_sets = [t for t in gm.subsets(ids) if lim is None or len(t) <= lim[1]]
     match_sets = [m for m in gm.subsets(ids) if lim is None or len(m) <= lim[0]]
     extra = ()
-    if "release/2.0" in names and "release/10.0" in names:
-        extra += ("numeric-aware-order-matters",)
-    if "master" in names:
-        extra += ("master-present",)
+    extra += _name_features(names)
     idx = -1
     for parents in dags:
         r = gm.reach_masks(parents)
@@ -202,17 +245,21 @@ def run_shard(shard, tier, seed, acc):
             for tags in tag_sets:
                 for match in match_sets:
                     base_feats = None
-                    for dates in schemes:
+                    for scheme in schemes:
                         case = {"parents": parents, "heads": heads, "tags": tags, "match": match}
-                        if dates is not None:
+                        dates = None
+                        if scheme is not None:
+                            dates, step = scheme
                             case["dates"] = dates
+                            if step != 600:
+                                case["step"] = step
                         problems, exp, observed = check_history(case, acc, printed_mode)
                         if base_feats is None:
                             base_feats = (tuple(gm.c06_features(parents, heads, tags, match, exp)) + extra,
                                           gm.c06_nontrivial(match, exp))
                         feats, nontriv = base_feats
                         if dates is not None:
-                            feats = feats + _date_features(parents, dates, match, exp)
+                            feats = feats + _date_features(parents, dates, step, match, exp)
                         acc.case(nontrivial=nontriv, features=feats, outcome=_outcome(observed, problems))
                         if nontriv and len(tags) == 1 and len(match) == 2:
                             acc.sample(case)
@@ -225,7 +272,25 @@ def run_shard(shard, tier, seed, acc):
                                     return
 
 
-def _date_features(parents, dates, match, exp):
+def _name_features(names):
+    f = ()
+    rel = [n for n in names if n != "master"]
+    if sorted(rel) != gm.sorted_branches(rel):
+        f += ("numeric-aware-order-matters",)
+    if "master" in names:
+        f += ("master-present",)
+    digits = sorted(rel, key=lambda n: int("".join(ch for ch in n if ch.isdigit()) or 0))
+    if digits != gm.sorted_branches(rel):
+        f += ("order-differs-from-concatenated-digits",)
+    for sep, label in (("_", "underscore"), ("-", "dash"), (".", "dot")):
+        if any(sep in n[len("release/"):] for n in rel):
+            f += ("name-separator-" + label,)
+    if any("/" in n[len("release/"):] for n in rel):
+        f += ("name-separator-slash",)
+    return f
+
+
+def _date_features(parents, dates, step, match, exp):
     f = ()
     if len(set(dates)) == 1:
         f += ("commit-times-equal",)
@@ -235,6 +300,25 @@ def _date_features(parents, dates, match, exp):
         if e["head_inside_lower"] and any((e["reach"] >> m) & 1 and dates[m - 1] > dates[e["head"] - 1] for m in match):
             f += ("ancestor-of-inside-head-committed-later",)
             break
+    if (max(dates) - min(dates)) * step > DAY:
+        f += ("commit-times-spread-over-days",)
+        # a higher-sorted branch whose head is days older / newer than the earliest report build of the lower branches
+        lower_builds = []
+        seen = set()
+        for e in exp:
+            if lower_builds:
+                gap = (min(lower_builds) - dates[e["head"] - 1]) * step
+                for lim, name in ((DAY, ">1d"), (5 * DAY, ">=5d"), (29 * DAY, ">=29d")):
+                    if (gap > lim if lim == DAY else gap >= lim) and ("o" + name) not in seen:
+                        seen.add("o" + name)
+                        f += ("higher-branch-head-older-than-lower-report-builds:" + name,)
+                    if (-gap > lim if lim == DAY else -gap >= lim) and ("n" + name) not in seen:
+                        seen.add("n" + name)
+                        f += ("higher-branch-head-newer-than-lower-report-builds:" + name,)
+                if gap > DAY and e["nm"] and "nm" not in seen:
+                    seen.add("nm")
+                    f += ("days-older-higher-branch-owes-not-merged",)
+            lower_builds += [dates[b - 1] for w in e["where"].values() for b in w]
     return f
 
 
